@@ -46,6 +46,27 @@ Theorem reads_latest : forall g s,
 Proof. exact EngineFacts.read_input_spec. Qed.
 Print Assumptions reads_latest.
 
+(* The evaluation gate, both directions: in the cycle at t the graph evaluates node i exactly
+   when (a) its slot held t when the cycle began - a wake-up it asked for itself (scheduler
+   event, start request, raw request; Props/C02.v shows the slot of a scheduler node is its
+   earliest pending time - or, the recorded finding, a time it has since cancelled), or
+   (b) the node is started and some node before it wrote, in this cycle, an output that one of
+   its inputs ACTIVE at that moment is bound to.  Ticks on passive inputs alone never
+   evaluate it; and it is evaluated at most once.  For every graph, user code and state. *)
+Theorem evaluated_exactly_when_due_or_active_input_ticked : forall cfgs beh t g,
+  length (g_slots g) = length cfgs -> length (g_nodes g) = length cfgs ->
+  (forall p, (p < length cfgs)%nat -> n_lmt (node_at p g) < t) ->
+  g_err (evaluate_graph cfgs beh t g) = 0 ->
+  forall i, (i < length cfgs)%nat ->
+    (n_evals (node_at i (evaluate_graph cfgs beh t g)) = n_evals (node_at i g) + 1 <->
+       slot_at i g = t \/
+       (n_started (node_at i g) = true /\
+        exists p, (p < i)%nat /\ n_lmt (node_at p (evaluate_graph cfgs beh t g)) = t /\ act_from cfgs g i p = true)) /\
+    (n_evals (node_at i (evaluate_graph cfgs beh t g)) = n_evals (node_at i g) \/
+     n_evals (node_at i (evaluate_graph cfgs beh t g)) = n_evals (node_at i g) + 1).
+Proof. exact EngineFacts.evaluated_iff_cause. Qed.
+Print Assumptions evaluated_exactly_when_due_or_active_input_ticked.
+
 (* A node that asked for a wake-up through its scheduler is evaluated at it (shared with
    C02 / C18): its slot is the cycle's time whenever the cycle is a pending time. *)
 Theorem own_wakeup_falls_due : forall cfgs g i e,
